@@ -603,6 +603,28 @@ fn run_subject<CS: Suite, T: Subject<CS>>(m: &mut Monitor, case_seed: u64, suite
             check_mutant(m, &format!("byte {pos} ^= {mask:#04x}"), f, &flip(&bytes, pos, mask));
         }
     }
+    // ---- the kind discriminant relabelled to every other kind, then unwrapped as EVERY key type
+    // (a changed wrapped form must not unwrap as anything, in particular not as the kind the
+    // new label names)
+    for tv in 0u8..16 {
+        if tv == bytes[lay.variant] {
+            continue;
+        }
+        let mut mb = bytes.clone();
+        mb[lay.variant] = tv;
+        if let Ok(w2) = postcard::from_bytes::<WrappedKey<CS>>(&mb) {
+            m.count("kind_tag_relabels_decoded", 1);
+            for (other, okind, ok) in cross_unwrap::<CS>(&eng, &w2) {
+                if ok {
+                    m.violation(
+                        &format!("relabelled-kind-tag-unwraps:{kind}-as-{okind}"),
+                        json!({"case_seed": case_seed, "suite": suite, "type": tname, "kind": kind, "unwrapped_as": other,
+                               "as_kind": okind, "new_kind_tag": tv, "original": hex(&bytes), "mutated": hex(&mb)}),
+                    );
+                }
+            }
+        }
+    }
     // truncation / extension
     check_mutant(m, "truncate 1", "truncated", &bytes[..bytes.len() - 1]);
     let mut ext = bytes.clone();
